@@ -20,7 +20,8 @@
     "its samples follow the stated distribution" (slow paths only, as algorithms): nor_tail_is_marsaglia,
                                                 nor_tail_result_is_marsaglia, nor_tail_constants, nor_tail_support (the tail
                                                 branch of the normal ziggurat IS Marsaglia's tail algorithm with c·r = 1),
-                                                zig_exp_tail_offset (the exponential tail is offset + a fresh variate)
+                                                zig_exp_tail_offset, exp_tail_step_accumulates (the exponential tail is offset + a
+                                                fresh variate and the regenerated offset step ADDS the tail start: k·T after k hits)
     "the build-time generated ziggurat and alias tables"   exp_tables_ok, nor_tables_ok (decide by the kernel over the tables)
     "alias tables ... probability vectors"      alias_table_valid: for EVERY vector pa (admissible or not) the construction
                                                 terminates (n units of fuel suffice) and yields a valid table
@@ -535,6 +536,26 @@ theorem zig_exp_support (fexp : Rat → Rat) (raw : Nat → Nat) (fuel k : Nat) 
 theorem zig_exp_tail_offset (fexp : Rat → Rat) (raw : Nat → Nat) (fuel k ucx : Nat) (xoff : Rat) (r : Rat × Nat) (hx : 0 ≤ xoff)
     (hr : notHot (expTab Rat) fexp raw fuel k ucx xoff = some r) : xoff ≤ r.1 :=
   overhang_ge_zero_offset _ expTab_facts fexp raw _ _ _ _ _ hx hr
+
+/-- The tail step of the exponential ziggurat ADDS the tail start to the offset (regenerated statement of cmi_random_exp_not_hot):
+    the offset starts at 0 and is k·T after k passes through the tail layer, T = `exp_zig_x_tail_start` = the value in the
+    generated include file = what the hand model Rng/Zig.lean adds.  (`x_offset = T` instead of `+=` — seeded change C16-h, which
+    caps the unit exponential at 2T — does not satisfy this.) -/
+theorem exp_tail_step_accumulates (xoff : Rat) (k : Nat) :
+    cmi_random_exp_not_hot_tail_step xoff = xoff + exp_zig_x_tail_start ∧
+    cmi_random_exp_not_hot_tail_step_init = 0 ∧
+    Nat.iterate cmi_random_exp_not_hot_tail_step k cmi_random_exp_not_hot_tail_step_init = (k : Rat) * exp_zig_x_tail_start ∧
+    exp_zig_x_tail_start = (expTab Rat).tail := by
+  have hstep : ∀ x, cmi_random_exp_not_hot_tail_step x = x + exp_zig_x_tail_start := by
+    intro x; unfold cmi_random_exp_not_hot_tail_step; rfl
+  refine ⟨hstep xoff, rfl, ?_, ?_⟩
+  · induction k with
+    | zero => simp [cmi_random_exp_not_hot_tail_step_init]
+    | succ n ih =>
+      rw [Function.iterate_succ_apply', ih, hstep]; push_cast; ring
+  · unfold expTab exp_zig_x_tail_start
+    simp only [cnum_ofNat, cnum_ofInt, exp_zig_x_tail_start_num, exp_zig_x_tail_start_exp]
+    norm_num
 
 /-! ### the tail branch of the normal ziggurat IS Marsaglia's tail algorithm (regenerated do-while loop of cmi_random_nor_not_hot) -/
 
